@@ -81,4 +81,3 @@ func runUnsignedWiden(rc *RuleCtx) {
 		}
 	}
 }
-
